@@ -81,10 +81,24 @@ pub fn generate(seed: u64, idx: u64) -> Scenario {
         let text = s.text(&uri).cloned().unwrap_or_default();
         match (family, rng.below(14)) {
             (_, 13) => {
-                // the boundaries of the text: everything deleted / replaced, offset 0, the end
-                let (r, repl) = gen::boundary_case_edit(&mut rng, &text);
-                let e = gen::to_lsp_edit(&text, r, repl);
-                s.change(&uri, vec![e]);
+                // the boundaries of the text: everything deleted / replaced, offset 0, the end -
+                // or the whole text replaced by a change without range (alone, or followed by a
+                // ranged change in the same notification)
+                if rng.chance(300) {
+                    let new_text = if rng.chance(500) { gen::document(&mut rng, DocKind::Valid) } else { text.replace("int", "int ") };
+                    let mut edits = vec![Edit { range: None, text: new_text.clone() }];
+                    if rng.chance(400) {
+                        let (r, repl) = gen::structural_edit(&mut rng, &new_text);
+                        let a = gen::snap(&new_text, r.start);
+                        let b = gen::snap(&new_text, r.end).max(a);
+                        edits.push(gen::to_lsp_edit(&new_text, a..b, repl));
+                    }
+                    s.change(&uri, edits);
+                } else {
+                    let (r, repl) = gen::boundary_case_edit(&mut rng, &text);
+                    let e = gen::to_lsp_edit(&text, r, repl);
+                    s.change(&uri, vec![e]);
+                }
                 steps += 1;
             }
             (_, roll @ (10 | 11 | 12)) => {
